@@ -675,6 +675,8 @@ def apply_as_grid_ufunc(
 
     # an entry naming a single axis may be given as a plain string: it names that axis, whatever
     # the length of the name (a string is not a sequence of one-letter axis names)
+    if isinstance(axis, str):
+        axis = [axis]
     axis = [(ax,) if isinstance(ax, str) else ax for ax in axis]
 
     if len(args) != len(axis):
